@@ -1,7 +1,182 @@
-//! C06: not built yet.
-use anyhow::{bail, Result};
-use serde_json::Value;
+//! C06: Mappings::remapper_a / remapper_b.
+//!
+//! ops (namespaces f, t are 1-based as in the specification)
+//!   {"op":"desc","kind":"f"|"m"|"r","M":tree,"f":i,"t":j,"d":s}          -> {"ok":b,"v":s}
+//!   {"op":"class","M":tree,"f":i,"t":j,"c":s,"back":[]|[c]}               -> {"ans":{"ok":b,"v":s},"back":[]|[s]}
+//!   {"op":"member","kind":"f"|"m","M":tree,"f":i,"t":j,"sup":{c:[s..]},"owner":s,"name":s,"desc":s,"rt":b}
+//!                                                                       -> {"ans":{"ok":b,"v":[name,desc]},"back":[]|[name,desc]}
+//!      back (only when asked by "rt"/"back"): the answer mapped back from t to f (inheritance remapped with JarSuperProv::remap)
+use anyhow::{bail, Context, Result};
+use indexmap::{IndexMap, IndexSet};
+use rand::rngs::StdRng;
+use rand::{Rng, SeedableRng};
+use serde_json::{json, Value};
+use duke::tree::class::{ClassName, ObjClassName};
+use duke::tree::descriptor::ReturnDescriptor;
+use duke::tree::field::{FieldDescriptor, FieldName};
+use duke::tree::method::{MethodDescriptor, MethodName};
+use quill::remapper::{ARemapper, BRemapper, JarSuperProv};
+use quill::tree::mappings::Mappings;
+use quill::tree::names::Namespace;
+use crate::gen_quill::*;
+use crate::proj_quill::*;
 
-pub fn exec(_v: &Value) -> Result<Value> { bail!("C06: driver not built") }
+fn res_s<T: std::fmt::Display>(r: Result<T>) -> Value {
+	match r { Ok(x) => json!({"ok": true, "v": x.to_string()}), Err(_) => json!({"ok": false, "v": []}) }
+}
 
-pub fn gen(_seed: u64, _n: usize) -> Result<Vec<Value>> { bail!("C06: driver not built") }
+fn prov(v: &Value) -> Result<JarSuperProv> {
+	let mut super_classes = IndexMap::new();
+	if let Some(o) = v.as_object() {
+		for (k, s) in o {
+			let mut set = IndexSet::new();
+			for x in s.as_array().context("supers")? { set.insert(ObjClassName::try_from(js(x.as_str().context("super")?))?); }
+			super_classes.insert(ObjClassName::try_from(js(k))?, set);
+		}
+	}
+	Ok(JarSuperProv { super_classes })
+}
+
+fn run<const N: usize>(v: &Value) -> Result<Value> {
+	let m: Mappings<N, Ns> = json_to_tree(&v["M"])?;
+	let f = Namespace::<N>::new(v["f"].as_u64().context("f")? as usize - 1)?;
+	let t = Namespace::<N>::new(v["t"].as_u64().context("t")? as usize - 1)?;
+	match v["op"].as_str().context("op")? {
+		"desc" => {
+			let r = m.remapper_a(f, t)?;
+			let d = js(v["d"].as_str().context("d")?);
+			Ok(match v["kind"].as_str() {
+				Some("f") => res_s(r.map_field_desc(&FieldDescriptor::try_from(d)?)),
+				Some("m") => res_s(r.map_method_desc(&MethodDescriptor::try_from(d)?)),
+				Some("r") => res_s(r.map_return_desc(&ReturnDescriptor::try_from(d)?).map(|x| x.as_inner().to_string())),
+				k => bail!("kind {k:?}"),
+			})
+		},
+		"class" => {
+			let r = m.remapper_a(f, t)?;
+			let c = ClassName::try_from(js(v["c"].as_str().context("c")?))?;
+			let ans = r.map_class_any(&c);
+			let mut back = json!([]);
+			if v["back"].as_array().map(|a| !a.is_empty()).unwrap_or(false) {
+				if let Ok(a) = &ans {
+					let rb = m.remapper_a(t, f)?;
+					back = match rb.map_class_any(a) { Ok(x) => json!([x.to_string()]), Err(_) => json!(["<error>"]) };
+				}
+			}
+			Ok(json!({"ans": res_s(ans), "back": back}))
+		},
+		"member" => {
+			let p = prov(&v["sup"])?;
+			let r = m.remapper_b(f, t, &p)?;
+			let owner = ObjClassName::try_from(js(v["owner"].as_str().context("owner")?))?;
+			let name = js(v["name"].as_str().context("name")?);
+			let desc = js(v["desc"].as_str().context("desc")?);
+			let is_m = v["kind"] == "m";
+			let ans: Result<(String, String)> = if is_m {
+				r.map_method(&owner, &MethodName::try_from(name)?, &MethodDescriptor::try_from(desc)?).map(|x| (x.name.to_string(), x.desc.to_string()))
+			} else {
+				r.map_field(&owner, &FieldName::try_from(name)?, &FieldDescriptor::try_from(desc)?).map(|x| (x.name.to_string(), x.desc.to_string()))
+			};
+			let mut back = json!([]);
+			if v["rt"] == json!(true) {
+				if let Ok((n2, d2)) = &ans {
+					let ra = m.remapper_a(f, t)?;
+					let mut ps = JarSuperProv::remap(&ra, &vec![p])?;
+					let p2 = ps.pop().context("remapped provider")?;
+					let rb = m.remapper_b(t, f, &p2)?;
+					let o2 = ra.map_class(&owner)?;
+					let b: Result<(String, String)> = if is_m {
+						rb.map_method(&o2, &MethodName::try_from(js(n2))?, &MethodDescriptor::try_from(js(d2))?).map(|x| (x.name.to_string(), x.desc.to_string()))
+					} else {
+						rb.map_field(&o2, &FieldName::try_from(js(n2))?, &FieldDescriptor::try_from(js(d2))?).map(|x| (x.name.to_string(), x.desc.to_string()))
+					};
+					back = match b { Ok((n, d)) => json!([n, d]), Err(_) => json!(["<error>", ""]) };
+				}
+			}
+			Ok(json!({"ans": match ans { Ok((n, d)) => json!({"ok": true, "v": [n, d]}), Err(_) => json!({"ok": false, "v": []}) }, "back": back}))
+		},
+		op => bail!("C06: unknown op {op}"),
+	}
+}
+
+pub fn exec(v: &Value) -> Result<Value> {
+	match v["M"]["ns"].as_array().map(|a| a.len()) {
+		Some(2) => run::<2>(v), Some(3) => run::<3>(v), Some(4) => run::<4>(v),
+		n => bail!("unsupported N {n:?}"),
+	}
+}
+
+/// Random mapping sets (2-4 namespaces, partial rows), random inheritance over their classes plus classes outside the
+/// set, queries for declared members through sub types, undeclared members, descriptors of the set.
+pub fn gen(seed: u64, n: usize) -> Result<Vec<Value>> {
+	let mut r = StdRng::seed_from_u64(seed ^ 0xC06);
+	let mut out = vec![];
+	while out.len() < n {
+		let nn = *pick(&mut r, &[2usize, 3, 3, 4]);
+		let cfg = TreeCfg { n: nn, classes: r.gen_range(1..10), p_missing: *pick(&mut r, &[0.0, 0.15, 0.4]), unicode: r.gen_bool(0.3), p_doc: 0.0, params: 0, ..TreeCfg::default() };
+		let m = gen_tree(&mut r, &cfg);
+		let f = r.gen_range(1..=nn);
+		let mut t = r.gen_range(1..=nn);
+		if t == f { t = f % nn + 1; }
+		// names of the classes in the from namespace (identity fallback on the source name)
+		let classes: Vec<(String, &Value)> = kids_of(&m).into_iter().map(|(_, c)| {
+			let nf = c["names"][f - 1].as_str().unwrap_or("");
+			(if nf.is_empty() { c["names"][0].as_str().unwrap_or("").to_owned() } else { nf.to_owned() }, c)
+		}).collect();
+		// acyclic inheritance: class i may extend classes with larger index and outsiders
+		let mut sup = serde_json::Map::new();
+		for i in 0..classes.len() {
+			let mut s: Vec<String> = vec![];
+			for j in i + 1..classes.len() { if r.gen_bool(0.35) { s.push(classes[j].0.clone()); } }
+			if r.gen_bool(0.2) { s.push("java/lang/Object".into()); }
+			if r.gen_bool(0.1) { s.insert(0, "outside/Unmapped".into()); }
+			if r.gen_bool(0.5) { use rand::seq::SliceRandom; s.shuffle(&mut r); }
+			s.dedup();
+			let mut seen = std::collections::HashSet::new();
+			s.retain(|x| seen.insert(x.clone()));
+			if !s.is_empty() || r.gen_bool(0.5) { sup.insert(classes[i].0.clone(), json!(s)); }
+		}
+		// a class outside the set that inherits from classes of the set (never a super type itself: no cycles)
+		if !classes.is_empty() && r.gen_bool(0.4) { let k = r.gen_range(0..classes.len()); sup.insert("outside/Down".into(), json!([classes[k].0.clone()])); }
+		let sup = Value::Object(sup);
+		// descriptor queries
+		for (_, c) in &classes {
+			for (_, k) in kids_of(c) {
+				if out.len() >= n { break; }
+				if r.gen_bool(0.3) {
+					out.push(json!({"op": "desc", "kind": k["kind"], "M": m, "f": 1, "t": t.max(2).min(nn), "d": k["desc"]}));
+				}
+			}
+		}
+		for (cn, _) in &classes {
+			if r.gen_bool(0.3) { out.push(json!({"op": "class", "M": m, "f": f, "t": t, "c": cn, "back": []})); }
+			if r.gen_bool(0.1) { out.push(json!({"op": "class", "M": m, "f": f, "t": t, "c": format!("[[L{cn};"), "back": []})); }
+		}
+		// member queries: the specification supplies the descriptor in the from namespace, so queries name the member by
+		// the entry (class key, member key); the trace specification translates.  Here: raw material only.
+		for (ci, (_, c)) in classes.iter().enumerate() {
+			for (_, k) in kids_of(c) {
+				let nf = k["names"][f - 1].as_str().unwrap_or("");
+				if nf.is_empty() || !r.gen_bool(0.5) { continue; }
+				let owner_i = r.gen_range(0..=ci);
+				let owner = if r.gen_bool(0.15) { "outside/Down".to_owned() } else { classes[owner_i].0.clone() };
+				// the descriptor in the from namespace is obtained from the real remapper_a(first -> from); the trace
+				// specification re-derives it from desc0 and rejects the record if it is not the translation
+				let desc = translate(&m, nn, f, k["kind"] == "m", k["desc"].as_str().unwrap_or(""))?;
+				out.push(json!({"op": "member", "kind": k["kind"], "M": m, "f": f, "t": t, "sup": sup, "owner": owner, "name": nf,
+					"desc": desc, "desc0": k["desc"], "rt": false}));
+			}
+		}
+	}
+	out.truncate(n);
+	Ok(out)
+}
+
+fn translate(m: &Value, nn: usize, f: usize, is_m: bool, d: &str) -> Result<String> {
+	fn go<const N: usize>(m: &Value, f: usize, is_m: bool, d: &str) -> Result<String> {
+		let mm: Mappings<N, Ns> = json_to_tree(m)?;
+		let r = mm.remapper_a(Namespace::<N>::new(0)?, Namespace::<N>::new(f - 1)?)?;
+		Ok(if is_m { r.map_method_desc(&MethodDescriptor::try_from(js(d))?)?.to_string() } else { r.map_field_desc(&FieldDescriptor::try_from(js(d))?)?.to_string() })
+	}
+	match nn { 2 => go::<2>(m, f, is_m, d), 3 => go::<3>(m, f, is_m, d), _ => go::<4>(m, f, is_m, d) }
+}
